@@ -34,6 +34,7 @@ THEOREMS = [
     'C05.clean_runC', 'C05.hist_wrap_full',
     # cross-cutting round: lengths/angles in the code's own terms, clean-up of the setter inside normalize
     'C05.lengths_angles_of_gram', 'C05.normalize_lengths_angles', 'C05.zeroSmall_flipC', 'C05.hist_normalize_full',
+    'C05.boxSet_scale_spec', 'C05.hist_boxSet_scale',
 ]
 PARTIAL = {
     'input_left_as_it_was': 'a heap fact (aliasing/mutation), true by construction of the functional model and '
